@@ -16,7 +16,7 @@ ASSUMPTIONS = [
     "(C15_rmie_total_when_product_finite)",
 ]
 UNARY = ("preds", "shift")
-BINARY = ("includes", "eq", "add", "mul", "rmie")
+BINARY = ("includes", "eq", "add", "mul", "rmie", "cadd", "cmul", "crmie")
 
 
 def rs(r):
@@ -97,7 +97,7 @@ def generate(rng, tier):
             cases.append("contains %s %d" % (rs(r), k))
     for r in fr:
         for s in fr:
-            for op in ("add", "mul", "rmie", "includes"):
+            for op in ("add", "mul", "rmie", "includes", "cadd", "cmul", "crmie"):
                 cases.append("%s %s %s" % (op, rs(r), rs(s)))
     # witnesses worth keeping first-class: a spurious rmie panic, exact and inexact loops of loops
     cases += ["rmie 0 65536 65536 inf", "mul 0 65536 65536 inf", "rmie 0 65536 65536 65537",
@@ -117,7 +117,7 @@ def generate(rng, tier):
                 if e > 0 and rng.random() < 0.6:
                     c = max(0, (a - 1 + e - 1) // e + rng.choice([-1, 0, 0, 1]))
                 s = (c, None) if rng.random() < 0.3 else (c, c + rng.randint(0, 3))
-            op = rng.choice(["add", "mul", "rmie", "rmie", "includes", "eq"])
+            op = rng.choice(["add", "mul", "rmie", "rmie", "includes", "eq", "cadd", "cmul", "crmie", "crmie"])
             if op == "eq" and rng.random() < 0.5:
                 s = r
             cases.append("%s %s %s" % (op, rs(r), rs(s)))
@@ -154,7 +154,7 @@ def _ranges_of(case):
     t = case.split()
     out, i = [], 1
     nr = {"preds": 1, "shift": 1, "contains": 1, "scale": 1, "addpt": 1,
-          "includes": 2, "eq": 2, "add": 2, "mul": 2, "rmie": 2}.get(t[0], 0)
+          "includes": 2, "eq": 2, "add": 2, "mul": 2, "rmie": 2, "cadd": 2, "cmul": 2, "crmie": 2}.get(t[0], 0)
     for _ in range(nr):
         out.append((int(t[i]), None if t[i + 1] == "inf" else int(t[i + 1])))
         i += 2
